@@ -438,6 +438,7 @@ class Driver:
         c = self.contract
         if c.modifies is None:
             return
+        p.ok_path('frame', f'fields outside modifies are checked ({when})')
         allowed = set()
         for path in c.modifies:
             parts = path.split('.')
